@@ -345,6 +345,18 @@ def _cost_cases():
         return dict(self=P, x=f.array('x', (4 * N,)))
     yield 'rank=2, after an earlier evaluation at another trial vector', build2
 
+    def build_any(f):
+        # an arbitrary later evaluation: the work arrays hold arbitrary data in arbitrary spaces (what earlier
+        # evaluations, a solve -- which leaves totalCorr flagged Real -- or calculate.* calls left behind)
+        P = mk_real_PRISM(f, 2, COST_MIXES[2][0])
+        sysm = f.getattr(P, 'sys')
+        N = f.getattr(f.getattr(sysm, 'domain'), '_length')
+        types = f.getattr(sysm, 'types')
+        for nm in ('totalCorr', 'directCorr', 'GammaIn', 'GammaOut', 'OC'):
+            f.setattr(P, nm, mk_MA(f, 'old_' + nm, N, 2, space=f.enum_sym('old_' + nm + '_space', SP, members=('Real', 'Fourier')), types=types))
+        return dict(self=P, x=f.array('x', (4 * N,)))
+    yield 'rank=2, work arrays in arbitrary spaces with arbitrary contents (after a solve / calculate.* calls)', build_any
+
     def build3(f):
         # C12: a tabulated omega whose length differs from the domain's (a one-column file of the wrong length survives
         # PRISM.__init__): the first evaluation must raise, no correlation function is produced from mismatched data
